@@ -126,7 +126,7 @@ def base_image(rng, ext=None, small=True):
                                  lut_exact=rng.random() < 0.5)
             hot = [(0, 26), (512, 4 * tracks)]
             bounds = [0, 8, 26, 512, 512 + 4 * tracks, 1024, 1024 + 512, len(data)]
-        b['info'] = {'enc': enc, 'spt': spt, 'tracks': tracks, 'sides': sides}
+        b['info'].update({'enc': enc, 'spt': spt, 'tracks': tracks, 'sides': sides})
     b['data'] = data
     b['hot'] = hot
     b['bounds'] = sorted(set(x for x in bounds if 0 <= x <= len(data)))
